@@ -58,8 +58,25 @@ class CacheShadow(object):
                  "_get_cached_full_proposal_dist": fa._get_cached_full_proposal_dist.__wrapped__,
                  "get_cached_new_tree": sa.get_cached_new_tree.__wrapped__}
         self.origs = origs
+        shipped_fns = {"compute_log_S": tu.compute_log_S, "_convolve_two_children": tu._convolve_two_children,
+                       "_get_cached_semi_proposal_dist": sa._get_cached_semi_proposal_dist,
+                       "_get_cached_full_proposal_dist": fa._get_cached_full_proposal_dist, "get_cached_new_tree": sa.get_cached_new_tree}
         for name, orig in origs.items():
             size = self.sizes.get(name, "shipped")
+            if size == "as_shipped":
+                # the repository's own memoised object, exactly as decorated at import time (state captured then is kept)
+                memo = shipped_fns[name]
+                shadow = self.make_shadow(name, memo, orig)
+                shadow.cache_clear = memo.cache_clear
+                shadow.cache_info = memo.cache_info
+                shadow.__wrapped__ = orig
+                self.wrapped[name] = memo
+                for modname in SITES[name]:
+                    mod = importlib.import_module(modname)
+                    if hasattr(mod, name):
+                        self.saved.append((mod, name, getattr(mod, name)))
+                        setattr(mod, name, shadow)
+                continue
             if size == "shipped":
                 size = shipped[name]
             if size == "off":
